@@ -638,3 +638,62 @@ def pd5(model):
                     r.fail(c, '%s writes to its parameter %s, but the argument %s may be shared'
                            % (f.name, f.params[i], unparse(arg)))
     return r
+
+
+# --------------------------------------------------------------------------- PD8
+LENGTHENING = {'upper', 'lower', 'title', 'capitalize', 'casefold', 'swapcase', 'expandtabs',
+               'format', 'center', 'ljust', 'rjust', 'zfill'}
+
+
+def _in_slice(x, stop):
+    p = x
+    while p is not None and p is not stop:
+        q = getattr(p, '_parent', None)
+        if isinstance(q, ast.Subscript) and q.slice is p:
+            return True
+        if isinstance(q, ast.Slice):
+            return True
+        p = q
+    return False
+
+
+def pd8(model):
+    r = RuleResult('PD8', 'a store T.txt = E whose new text may be longer than the old one (Unicode '
+                   'case mapping: "ß".upper() == "SS"; concatenation; padding) pins the token '
+                   '(T.pos_fix = True in the same block) - otherwise the surplus characters are '
+                   'spread over the following source positions', floor=2)
+    for m in model.mods.values():
+        if m.short.startswith('shell') or m.short in ('defs',):
+            continue
+        for n in ast.walk(m.tree):
+            if not isinstance(n, ast.Assign):
+                continue
+            for t in n.targets:
+                if not (isinstance(t, ast.Attribute) and t.attr == 'txt'):
+                    continue
+                if isinstance(t.value, ast.Name) and t.value.id == 'self':
+                    continue
+                v = n.value
+                longer = None
+                for x in ast.walk(v):
+                    if isinstance(x, ast.Call) and isinstance(x.func, ast.Attribute) \
+                            and x.func.attr in LENGTHENING:
+                        longer = '.%s() can change the length of the text' % x.func.attr
+                    if isinstance(x, ast.BinOp) and isinstance(x.op, (ast.Add, ast.Mult)) \
+                            and not _in_slice(x, v):
+                        longer = 'concatenation'
+                    if isinstance(x, ast.Call) and T.call_name(x) == 'replace' and len(x.args) == 2 \
+                            and all(isinstance(a, ast.Constant) for a in x.args) \
+                            and len(x.args[1].value) > len(x.args[0].value):
+                        longer = 'replace() by a longer string'
+                if longer is None:
+                    r.ok(n, 'new text is a part of the old text', sample=False)
+                    continue
+                recv = unparse(t.value)
+                if _sibling_sets_posfix(n, recv):
+                    r.ok(n, '%s: the token is pinned in the same block' % longer, nontrivial=True)
+                else:
+                    r.fail(n, 'the text of %s may get longer (%s) and the token is not pinned'
+                           % (recv, longer),
+                           witness='"ß" as the first / last character: upper() gives "SS"')
+    return r
